@@ -91,6 +91,84 @@ func c05Idle(o c05Opts, outChunks, inChunks [][]byte) string {
 	return viol
 }
 
+// c05Drag: a drag-and-drop upload attempt that leads to no transfer (the remote side has no trz), with
+// the echo of the typed command arriving in echo (a list of reads); four seconds later — the drag window
+// is over — the remote side prints probe (a list of reads) and the user types. Everything of the probe
+// must pass; of the echo phase only the first read after the command may be replaced by CR LF, and only
+// if it is exactly the command (the documented one-shot suppression).
+func c05Drag(o c05Opts, echo, probe [][]byte) string {
+	viol := ""
+	dir, err := os.MkdirTemp(scratchDir(), "drag")
+	if err != nil {
+		return "tool: " + err.Error()
+	}
+	defer os.RemoveAll(dir)
+	path := filepath.Join(dir, "dropped.txt")
+	os.WriteFile(path, []byte("dropped"), 0o644)
+	s := vs.Run(vs.Config{MaxSteps: 200000, NoRecord: true}, nil, nil, func() {
+		keys, term := vs.NewPipe("keys"), vs.NewSink("term")
+		c2s, s2c := vs.NewPipe("c2s"), vs.NewPipe("s2c")
+		filter := NewTrzszFilter(keys, term, c2s, s2c, TrzszOptions{TerminalColumns: 80, DetectDragFile: true, EnableZmodem: o.zmodem, EnableOSC52: o.osc52, DetectTraceLog: o.trace})
+		vtime.Sleep(1100 * time.Millisecond)
+		s2c.Write([]byte("$ "))
+		vs.WaitSettled(func() bool { return false }, 0)
+		keys.Write([]byte(path + " "))
+		vs.WaitSettled(func() bool { return false }, 0)
+		vtime.Sleep(600 * time.Millisecond) // 300 ms delay + Ctrl-C + 200 ms + the command
+		vs.WaitSettled(func() bool { return false }, 0)
+		if string(c2s.Written) != "\x03trz\r" {
+			viol = fmt.Sprintf("tool: the drag did not happen as modelled: the remote side received %q", c2s.Written)
+			return
+		}
+		want := []byte("$ ")
+		first := true // the one read the suppression may claim: the first one after the command was typed
+		expect := func(c []byte) {
+			if first && strings.TrimRight(string(trimVT100(c)), "\r\n") == "trz" {
+				want = append(want, "\r\n"...)
+			} else {
+				want = append(want, c...)
+			}
+			first = false
+		}
+		for _, c := range echo {
+			s2c.Write(c)
+			vs.WaitSettled(func() bool { return false }, 0)
+			expect(c)
+		}
+		vtime.Sleep(4 * time.Second) // the drag attempt is over
+		vs.WaitSettled(func() bool { return false }, 0)
+		if filter.IsTransferringFiles() {
+			viol = "the filter thinks a transfer is in progress after a drag attempt that started none"
+			return
+		}
+		wantIn := "\x03trz\r"
+		for _, c := range probe {
+			s2c.Write(c)
+			expect(c)
+			vs.WaitSettled(func() bool { return false }, 0)
+		}
+		for _, tok := range []string{"x", "\x03", "ls\r", "/no/such/file "} {
+			keys.Write([]byte(tok))
+			wantIn += tok
+			vs.WaitSettled(func() bool { return false }, 0)
+			vtime.Sleep(300 * time.Millisecond)
+		}
+		vtime.Sleep(time.Second)
+		vs.WaitSettled(func() bool { return false }, 0)
+		if !bytes.Equal(term.Written, want) {
+			viol = fmt.Sprintf("after a drag attempt (echo reads %q) the remote side printed %q in separate reads; the terminal shows %q, expected %q", echo, probe, clipStr(string(term.Written), 200), clipStr(string(want), 200))
+		} else if string(c2s.Written) != wantIn {
+			viol = fmt.Sprintf("after a drag attempt typed input reached the remote side as %q, expected %q", c2s.Written, wantIn)
+		}
+	})
+	if len(s.Crash) > 0 {
+		viol = "panic: " + s.CrashString()
+	} else if s.Horizon {
+		viol = "horizon reached"
+	}
+	return viol
+}
+
 func chunkings1(b []byte) [][][]byte {
 	out := [][][]byte{{b}}
 	for c := 1; c < len(b); c++ {
@@ -204,6 +282,43 @@ func c05Run(j vs.Job) *vs.JobResult {
 			}
 			if v != "" {
 				r.Violate("c05:history:"+firstWords(v, 6), wp.String()+": "+v, wp)
+			}
+		}
+	case "drag":
+		echoes := [][][]byte{
+			{[]byte("trz\r\n"), []byte("bash: trz: command not found\r\n$ ")},
+			{[]byte("tr"), []byte("z\r\n"), []byte("bash: trz: command not found\r\n$ ")},
+			{[]byte("trz\r\nbash: trz: command not found\r\n$ ")},
+			{[]byte("^C\r\n$ trz\r\n"), []byte("bash: trz: command not found\r\n$ ")},
+			{[]byte("t"), []byte("r"), []byte("z"), []byte("\r\n$ ")},
+			{},
+		}
+		probes := [][][]byte{
+			{[]byte("ls\r\n"), []byte("trz\r\n"), []byte("tsz\r\n$ ")},
+			{[]byte("trz"), []byte("\r\n"), []byte("trz -d\r\n"), []byte("$ ")},
+			{[]byte("\x1b[1mtrz\x1b[0m\r\n"), []byte("plain\r\n")},
+		}
+		for mask := 0; mask < 8; mask++ {
+			o := c05Opts{true, mask&1 != 0, mask&2 != 0, mask&4 != 0}
+			for _, e := range echoes {
+				for _, pr := range probes {
+					v := c05Drag(o, e, pr)
+					r.Execs++
+					r.Nontrivial++
+					if len(r.Samples) < 2 {
+						r.Samples = append(r.Samples, fmt.Sprintf("drag attempt, options %+v, echo reads %q, then probe reads %q", o, e, pr))
+					}
+					if strings.HasPrefix(v, "tool: ") {
+						r.ToolErr = v
+						return r
+					}
+					if v != "" {
+						r.Violate("c05:drag:"+firstWords(v, 6), fmt.Sprintf("options %+v: %s", o, v), nil)
+						if len(r.Violations) >= 5 {
+							return r
+						}
+					}
+				}
 			}
 		}
 	case "zmodem":
@@ -351,8 +466,8 @@ func init() {
 		ID:    "C05",
 		Level: "exploration",
 		Rule: "(i) all 16 subsets of {drag detection, zmodem, OSC52, trace log} x output tokens (text, CSI, binary, scroll-back of a handshake and of a finished transfer, triggers with bad mode/version, every listed truncation, zmodem near-misses and vetoed headers, OSC52 fragments, trace-log near-misses) and input tokens (text, Ctrl-C, escape keys, path-like input naming files that do not exist in four styles, binary), " +
-			"each token with every single cut, token pairs in one and in two reads; (ii) every history of one or two transfers over {upload, download, refused, failed on the client, failed on the server, Ctrl-C keep/delete, server SIGINT, old-version server} followed by a probe in both directions; (iii) every history ending in a zmodem session over {download, upload} x helper {missing, exits 1, runs, silent, late} x remote {finishes, cancels, keeps sending, falls silent} x {no Ctrl-C, Ctrl-C}, after which the user types (Ctrl-C, text, CAN, escape key, a command; each a read of its own) before the remote side prints anything; (iv) the real trzsz binary wrapping sh for 4 exit codes x 3 output timings",
-		Assumptions: []string{"(iv) is a process-level run in real time over a fixed menu (3 tries each); everything else runs under the scheduler", "the complete trace-log switch and genuine triggers / zmodem headers are not 'idle' input and are excluded"},
+			"each token with every single cut, token pairs in one and in two reads; (ii) every history of one or two transfers over {upload, download, refused, failed on the client, failed on the server, Ctrl-C keep/delete, server SIGINT, old-version server} followed by a probe in both directions; (iii) every history ending in a zmodem session over {download, upload} x helper {missing, exits 1, runs, silent, late} x remote {finishes, cancels, keeps sending, falls silent} x {no Ctrl-C, Ctrl-C}, after which the user types (Ctrl-C, text, CAN, escape key, a command; each a read of its own) before the remote side prints anything; (iv) a drag-and-drop upload attempt that starts no transfer x 6 ways the echo of the typed command arrives (one read, split, merged with what follows, after a ^C echo, byte-wise, none) x 3 later outputs that contain the command text as a read of its own x 8 option sets, with typed input afterwards; (v) the real trzsz binary wrapping sh for 4 exit codes x 3 output timings",
+		Assumptions: []string{"(v) is a process-level run in real time over a fixed menu (3 tries each); everything else runs under the scheduler", "the complete trace-log switch and genuine triggers / zmodem headers are not 'idle' input and are excluded"},
 		QuickBudget: 100, ThoroughBudget: 600, DiedIsViolation: true,
 		Jobs: func(tier string) []vs.Job {
 			var jobs []vs.Job
@@ -367,6 +482,7 @@ func init() {
 			for s := 0; s < 4; s++ {
 				jobs = append(jobs, vs.MkJob(fmt.Sprintf("zmodem history %d/4", s), c05Params{Part: "zmodem", Shard: s, N: 4}))
 			}
+			jobs = append(jobs, vs.MkJob("drag attempts", c05Params{Part: "drag"}))
 			jobs = append(jobs, vs.MkJob("exit", c05Params{Part: "exit"}))
 			return jobs
 		},
